@@ -20,6 +20,10 @@ EXTERNAL = {
     'amp': 'neurodsp.timefrequency.amp_by_time: uninterpreted function of (signal, fs, band, n_cycles), assumed even in the sign of the signal',
     'dual': 'neurodsp.burst.detect_bursts_dual_threshold: uninterpreted function of all its arguments, result has len(sig)',
     'rank': 'pandas Series.rank(): uninterpreted (average rank, nan stays nan); cross-checked against an independent reference by the bounded jobs',
+    'interp': 'numpy.interp(x, xp, fp) for non-empty strictly increasing xp and finite fp (both obligations at the call): result finite, of '
+              'x\'s length, fp[0] / fp[-1] at and beyond the end points, fp[k] where x equals xp[k], and on each interval [xp[s], xp[s+1]] '
+              'strictly increasing / decreasing / constant in x as fp[s] <, >, == fp[s+1] (a consequence of the linear formula in real '
+              'arithmetic; the formula itself is not assumed); boolean-mask selection keeps the selected entries in order',
     'mean': 'numpy mean / diff / slicing / comparison of arrays inside reductions: opaque sequence algebra (same expression => same value)',
 }
 
@@ -333,16 +337,33 @@ prop('C16', level='other',
                  'rows carry exactly the one-sided C05 values (NaN at the table ends). Bounded cross-check: synthetic tables with every '
                  'is_burst pattern up to 6 (8) rows and corpus tables.')
 
-prop('C17', level='other', units=['bycycle.cyclepoints.phase._merge_phases'], jobs=['phase'],
-     unit_jobs={'bycycle.cyclepoints.phase._merge_phases': ['phase']},
-     explanation='Proved for _merge_phases (all lengths, all finite branch series that rise somewhere): the result has the input '
+prop('C17', level='other', units=['bycycle.cyclepoints.phase._merge_phases', 'bycycle.cyclepoints.phase.extrema_interpolated_phase'],
+     jobs=['phase'],
+     unit_jobs={'bycycle.cyclepoints.phase._merge_phases': ['phase'],
+                'bycycle.cyclepoints.phase.extrema_interpolated_phase': ['phase']},
+     trusted=[EXTERNAL['interp']],
+     assumptions=['np.interp (assumed library contract, see trusted base); real arithmetic for the interpolated values; the proved '
+                  'cases take alternating extrema at least two samples apart, all inside the signal (the property\'s quantifier)'],
+     explanation='Proved for extrema_interpolated_phase WITHOUT midpoints (rises = decays = None), for every signal length and every '
+                 'alternating peak / trough placement with gaps >= 2 (either kind first, equal counts or one more of the first kind): '
+                 'the result has one value per sample, is exactly 0 at every peak and +-pi at every trough, finite and within '
+                 '[-pi, pi] on the whole span from the first to the last cyclepoint, NaN outside it, and result[i + 1] >= result[i] '
+                 'unless i + 1 is a trough - the clauses of the property, each a postcondition. The argument (about sixty small '
+                 'obligations per case, contracts/phase_eip.py): the alternating merge of the two index arrays is a strictly '
+                 'increasing knot sequence (induction); the scattered stores put finite anchors exactly on the knots (membership '
+                 'predicate of an integer-array store with witness); no sample between two consecutive knots survives the NaN mask, '
+                 'so consecutive knots are consecutive sample points of np.interp (counting function of the mask selection, three '
+                 'inductions); each branch series is exact at the knots, constant outside them and strictly monotone on each knot '
+                 'interval (assumed contract of np.interp); the precondition of _merge_phases holds at the call (finite, rises at the '
+                 'first knot); its first rising step and last non-zero step are the first and last knot. '
+                 'Proved for _merge_phases (all lengths, all finite branch series that rise somewhere): the result has the input '
                  'length, equals the merged series (+pi branch where the -pi branch is about to decrease) from the first rising step '
-                 'up to and including the sample the last non-zero step leads to, and is NaN before and after; no StopIteration '
-                 '(explicit witnesses); slice bounds in range (the negative computed slice start of the pinned tree fails these '
-                 'obligations). Bounded: anchor assignment, np.interp and the statement-level facts (0 at peaks, +-pi at troughs, '
-                 '+-pi/2 at midpoints, range, monotone between cyclepoints, finite exactly on the cyclepoint span) - every '
-                 'alternating placement with gaps >= 2 on arrays up to length 9 (12), with and without midpoints (coinciding with '
-                 'extrema included), plus corpus cyclepoints at several boundaries.')
+                 'up to and including the sample the last non-zero step leads to, is NaN before and after, that first step rises, the '
+                 'step into the last unmasked sample is non-zero and all later steps are zero; no StopIteration (explicit witnesses); '
+                 'slice bounds in range (the negative computed slice start of the pinned tree fails these obligations). '
+                 'Bounded only: the calls WITH midpoints (+-pi/2 anchors, midpoints coinciding with extrema) - every alternating '
+                 'placement with gaps >= 2 on arrays up to length 9 (12) with every midpoint placement, plus corpus cyclepoints at '
+                 'several boundaries; the same job also evaluates the proved contract text on every real call without midpoints.')
 
 prop('C18', level='other', units=[DF + 'drop_samples_df', DF + 'limit_df', DF + 'split_samples_df', 'bycycle.utils.timeseries.limit_signal',
                                   DF + 'flatten_dfs'], jobs=['limit_df', 'limit_signal', 'samples_split_flatten', 'armed_limit'],
